@@ -101,7 +101,8 @@ DYNAMIC_TAGS = ['{field.memo}', '{source}', '{extract("(\\\\d+)")}', '{extract(f
                 '{nosuchvar}', '{ }', '{field.missing}', '{amount > 100}', '{split(" ", 0)}', '{lowercase(source)}',
                 '{[r.kind for r in extra if r.n > 2]}', '{extract("(\\\\d{4})")}', '{extract(description, "(\\\\d{2,4})")}',
                 '{regex_replace(source, "[a-z]{2,}", "x")}', '{lowercase("{A}")}', '{"{big}" if amount > 100 else "small"}',
-                '{extract(field.memo, "REF (\\\\w{3})")}']
+                '{extract(field.memo, "REF (\\\\w{3})")}', '{field.source}', '{field.location}', '{field.description}', '{field.amount}',
+                '{field.date}', '{tagvar}', '{ field.code }']
 
 
 def gen_tags(rnd):
@@ -155,7 +156,8 @@ def gen_rule(rnd, i, var_names, tag_only_p=0.4):
 
 
 VAR_POOL = [('is_large', 'amount > 100'), ('is_ride', 'contains("UBER") or contains("LYFT")'), ('bad', 'field.nothing'),
-            ('both', 'is_large and is_ride'), ('Is_Gas', 'contains("GAS")'), ('jan', 'month == 1')]
+            ('both', 'is_large and is_ride'), ('Is_Gas', 'contains("GAS")'), ('jan', 'month == 1'),
+            ('tagvar', 'lowercase(source) + "-src"'), ('tagvar', 'extract("(\\\\d+)")')]       # tagvar: read only from {tagvar} tags
 TF_POOL = [('field.description', 'regex_replace(field.description, "^APLPAY\\\\s+", "")'), ('field.description', 'uppercase(field.description)'),
            ('field.memo', 'trim(field.memo)'), ('field.memo', 'strip_prefix(field.memo, "REF ")'), ('field.description', 'nosuchfn(1)'),
            ('field.newf', '"const"'), ('field.description', 'strip_suffix(field.description, " 1234")'),
@@ -164,7 +166,7 @@ TF_POOL = [('field.description', 'regex_replace(field.description, "^APLPAY\\\\s
 
 def gen_rules_file(rnd, nrules=None, tag_only_p=0.4, tf_p=0.3, dup_names_p=0.0):
     vs = rnd.sample(VAR_POOL, rnd.choice([0, 0, 1, 2]))
-    names = [v[0].lower() for v in vs if v[0] != 'bad'] if vs else []
+    names = [v[0].lower() for v in vs if v[0] not in ('bad', 'tagvar')] if vs else []
     tfs = [rnd.choice(TF_POOL) for _ in range(rnd.choice([1, 2]))] if rnd.random() < tf_p else []
     n = nrules or rnd.choice([1, 2, 3, 3, 4, 4, 5, 6, 7, 8])
     rules = [gen_rule(rnd, i, names, tag_only_p) for i in range(n)]
